@@ -369,6 +369,32 @@ def main():
         except Exception as ex:  # noqa: BLE001
             res.fail(f"orphan-node sim={okind}", f"solve with an orphan node raised {ex!r}"[:300], dict(sim=okind, Nn=int(meshO.Nn)))
 
+    # orphan nodes in a mesh with two element types of the main dimension (triangles glued to quadrangles; prisms to hexahedra), one or three
+    # of them: fewer unused nodes than interface nodes, so a count of the nodes group by group does not see them
+    for mixname, norph in (("TRI3+QUAD4", 1), ("TRI3+QUAD4", 3), ("PRISM6+HEXA8", 2)):
+        res.case(("orphan", "mixed", mixname, norph))
+        identMx = dict(mesh=mixname, orphan_nodes=norph, sim="elastic")
+        try:
+            mmix = M.mesh_mixed_2d(h=1 / 2) if mixname == "TRI3+QUAD4" else M.mesh_mixed_3d(h=1 / 2, layers=1)
+            dimx = mmix.dim
+            extra = np.array([[7.0 + k_, 5.0, 0.0 if dimx == 2 else 3.0] for k_ in range(norph)])
+            coordx = np.vstack([mmix.coord, extra])
+            meshX = Mesh({g.elemType: GroupElemFactory.Create(g.elemType, np.asarray(g.connect), coordx) for g in mmix.dict_groupElem.values()})
+            sX = Simulations.Elastic(meshX, Models.Elastic.Isotropic(dimx, E=8.0, v=0.25))
+            x0 = coordx[:-norph, 0].min()
+            x1 = coordx[:-norph, 0].max()
+            leftX = np.where(np.isclose(coordx[:-norph, 0], x0))[0]
+            rightX = np.where(np.isclose(coordx[:-norph, 0], x1))[0]
+            unkX = ["x", "y", "z"][:dimx]
+            sX.add_dirichlet(leftX, [0.0] * dimx, unkX)
+            sX.add_neumann(rightX, [1.0], ["x"])
+            uX = np.asarray(sX.Solve()).reshape(-1, dimx)
+            if not np.all(np.isfinite(uX)) or not (np.abs(uX[-norph:]).max() <= 1e-12) or not (np.abs(uX[rightX, 0]).min() > 0):
+                res.fail(f"orphan-node mesh={mixname}", f"{norph} node(s) attached to no element in a mesh mixing two element types: {int((~np.isfinite(uX)).sum())} non-finite values in the solution, "
+                         f"values at the orphan nodes {uX[-norph:].tolist()} (mesh.orphanNodes = {list(np.asarray(meshX.orphanNodes).ravel())})", identMx)
+        except Exception as ex:  # noqa: BLE001
+            res.fail(f"orphan-node mesh={mixname}", f"solve raised {ex!r}"[:300], identMx)
+
     # ---------------- conditions on the second field of a two-field simulation, with every irreversibility solver ----------------
     # (BoundConstrain solves the damage problem with the bounded least-squares backend; the conditions on the damage reduce the system)
     meshD = M.mesh_2d("QUAD4", a=2.0, b=1.0, h=0.5)
